@@ -155,6 +155,16 @@ def run(ctx):
         cfg = ctx.make_cfg("MC_RingCursor.cfg", "MC_RingCursor_%d_%d.cfg" % (size, items),
                            {k: (v if isinstance(v, int) and not isinstance(v, bool) else tla(v)) for k, v in c.items()})
         ctx.mc("MC_RingCursor", cfg=cfg, workers=4, timeout=1500)
+    # the real cursors, one thread, random call orders; one run crosses the 2^32 wrap of the free-running indexes
+    tfc = os.path.join(ctx.out, "cursor-items.ndjson")
+    rc = ctx.harness(hb, ["cursor-record", ctx.seed, 200 if q else 4000, tfc], timeout=3000)
+    ctx.cov["stages"].append({"stage": "record", "what": "ring cursors, sequential call orders incl. the index wrap", **{k: v for k, v in rc.items() if not k.startswith("_")}})
+    if rc["index_wraps_crossed"] < 1:
+        raise vlib.ToolError("vacuous: the cursor recording did not cross the index wrap")
+    import C18 as _c18
+    for i, pth in enumerate(_c18.split(tfc, 60000)):
+        ctx.trace("Trace_Cursor", pth, runs=rc["runs"], label="cursor-%d" % i, timeout=1500)
+    ctx.count(rc["events"])
     tfw = os.path.join(ctx.out, "worker-items.ndjson")
     rw = ctx.harness(hb, ["worker-record", ctx.seed, 300 if q else 5000, tfw], timeout=3000)
     ctx.cov["stages"].append({"stage": "record", "what": "worker channel, 1-2 sender handles on OS threads", **{k: v for k, v in rw.items() if not k.startswith("_")}})
@@ -170,4 +180,4 @@ def run(ctx):
     ctx.count(r["events"])
     ctx.assume("memory model: release/acquire message passing with per-location coherence and vector clocks for the non-atomic slots (SeqCst is treated as AcqRel read-modify-write on the latest value; release sequences and fences are not modelled); AtomicWaker (crate atomic-waker) is an atomic register/wake object and trusted")
     ctx.assume("orderings and statement order are read from the source text of sync/spsc (state.rs, send.rs, recv.rs) at every run; a change of structure the specification does not know is a tool error asking for the specification to be updated")
-    ctx.assume("transport/wakeup_queue.rs (a mutex-protected queue, no lock-free protocol) is not modelled; the ring cursors are model-checked only (no trace of the real cursors): this check decides the property for the spsc channel, the worker credit channel and the ring cursor protocol")
+    ctx.assume("transport/wakeup_queue.rs (a mutex-protected queue, no lock-free protocol) is not modelled; the ring cursors are model-checked for concurrency and trace-validated sequentially (one driving thread, across the 2^32 index wrap): this check decides the property for the spsc channel, the worker credit channel and the ring cursor protocol")
